@@ -2100,7 +2100,7 @@ class TestByTestResult(TestResult):
         self._start_time = None
 
     def _err_to_details(self, test, err, details):
-        if details:
+        if details is not None:
             return details
         return {"traceback": TracebackContent(err, test, capture_locals=self.tb_locals)}
 
